@@ -274,6 +274,10 @@ def check_c04(run: Run) -> None:
                             run.obs['units-component'] += 1
                         if a.values is None:
                             run.obs['present-no-value'] += 1
+                            if s.type != 'FILE-HEADER':
+                                run.v('C04', 'present-without-value', 'present-without-value',
+                                      f'{s.type} {o.name} {a.label}: attribute component present (descriptor '
+                                      f'{a.descriptor:#x}) but no value and not marked absent')
 
 
 # ------------------------------------------------------------------------------------------------
